@@ -108,6 +108,10 @@ func (v *VMValue) ToJSONRaw(save map[*VMValue]bool) ([]byte, error) {
 
 	case VMTypeNativeFunction:
 		fd, _ := v.ReadNativeFunctionData()
+		if fd.Self != nil {
+			// 绑定方法(如 [1,2].sum)无法通过名字还原
+			return nil, errors.New("值错误: 绑定方法无法序列化")
+		}
 		return json.Marshal(struct {
 			TypeId VMValueType `json:"t"`
 			Value  struct {
@@ -211,6 +215,11 @@ func (v *VMValue) UnmarshalJSON(input []byte) error {
 		}
 		err := json.Unmarshal(input, &v1)
 		if err == nil {
+			for _, i := range v1.Value.List {
+				if i == nil {
+					return errors.New("值错误: 数组元素不能为null")
+				}
+			}
 			v.Value = NewArrayValRaw(v1.Value.List).Value
 		}
 		return err
@@ -253,8 +262,10 @@ func (v *VMValue) UnmarshalJSON(input []byte) error {
 		if err == nil {
 			if val, ok := builtinValues[v1.Value.Name]; ok {
 				v.Value = val.Value
+				return nil
 			}
-			return nil
+			// 未知的名字(包括绑定方法如 Array.sum)无法还原，返回错误而不是留下一个空壳
+			return errors.New("值错误: 无法还原内置函数 " + v1.Value.Name)
 		}
 		return err
 	case VMTypeNativeObject:
